@@ -146,6 +146,16 @@ class RoleList(list):
         return list.count(self._mat(), x)
 
 
+_VARS = {}      # z3 variables / domain constraints / Ch objects by name
+
+
+def _memo(key, make):
+    v = _VARS.get(key)
+    if v is None:
+        v = _VARS[key] = make()
+    return v
+
+
 class SymCtx:
     symbolic = True
 
@@ -179,13 +189,15 @@ class SymCtx:
         e.pos += 1
 
     def bool(self, name):
-        v = z3.Bool(name)
+        v, sb = _memo(('b', name), lambda: (lambda x: (x, SymBool(x)))(
+            z3.Bool(name)))
         self.inputs[name] = ('bool', v)
-        return SymBool(v)
+        return sb
 
     def zvar(self, name):
         """The z3 Bool behind ``bool(name)`` (for oracle formulas)."""
-        v = z3.Bool(name)
+        v, sb = _memo(('b', name), lambda: (lambda x: (x, SymBool(x)))(
+            z3.Bool(name)))
         self.inputs[name] = ('bool', v)
         return v
 
@@ -194,10 +206,12 @@ class SymCtx:
         if len(menu) == 1 and not lazy:
             self.inputs[name] = ('const', 0)
             return menu[0]
-        v = z3.Int(name)
-        self._nocheck(z3.And(v >= 0, v < len(menu)))
+        n = len(menu)
+        v, dom = _memo(('c', name, n), lambda: (lambda x: (
+            x, z3.And(x >= 0, x < n)))(z3.Int(name)))
+        self._nocheck(dom)
         self.inputs[name] = ('int', v)
-        c = SymChoice(v, menu)
+        c = SymChoice(v, menu, name)
         if lazy:
             return c
         return c.concretize()
@@ -217,10 +231,13 @@ class SymCtx:
         dom = sorted({ord(c) for c in alphabet})
         n = self.choice(name + '#len', range(minlen, maxlen + 1))
         chars = []
+        domt = tuple(dom)
         for i in range(n):
-            v = z3.Int('%s#%d' % (name, i))
-            self._nocheck(z3.Or(*[v == a for a in dom]))
-            chars.append(Ch(v, dom))
+            ch, cons = _memo(('s', name, i, domt), lambda: (lambda x: (
+                Ch(x, dom), z3.Or(*[x == a for a in dom])))(
+                    z3.Int('%s#%d' % (name, i))))
+            self._nocheck(cons)
+            chars.append(ch)
         self.inputs[name] = ('str', chars)
         return mkstr(chars) if chars else ''
 
